@@ -270,6 +270,11 @@ func (wr *strictResponseWrapper) Header() http.Header {
 }
 
 func (wr *strictResponseWrapper) flushBodyContents() error {
+	if !wr.headerWritten {
+		// The handler wrote neither a header nor a body: like net/http, answer 200
+		// instead of passing the unset status 0 to WriteHeader (which panics).
+		wr.WriteHeader(http.StatusOK)
+	}
 	wr.w.WriteHeader(wr.status)
 	_, err := wr.w.Write(wr.body.Bytes())
 	return err
